@@ -1,7 +1,7 @@
 """C14 — runs are numbered uniquely and execute the script that is on display.  Model A."""
 from __future__ import annotations
 
-from .. import common
+from .. import common, lifecycle
 from . import _life
 
 KINDS = {'prn', 'pri', 'pst', 'cs', 'ret', 'blocked'}
@@ -58,6 +58,50 @@ def oracle_serial(r: dict) -> list[str]:
     return msgs
 
 
+def overlap_reset_run(d: int, from_finished: bool) -> dict:
+    """reset(statement=NEW, run_no_start_from=100) from one task and run() from another, d scheduler steps later, stock order.  At
+    these offsets the unchanged code lets exactly one of the two win cleanly (the transition of the other is cancelled before it has
+    changed anything); later offsets are open finding F-A2 and are not run here."""
+    import asyncio
+    from .. import fakes, loop as ctl
+    from nextline.spawned import RunResult
+
+    async def main() -> dict:
+        sc = lifecycle.Scenario(0, 1, False, False)
+        await sc.setup()
+        await sc.op('start')
+        if from_finished:
+            await sc.op('run')
+            await sc.op('exit 5')
+        nl = sc.nl
+        n0 = len(sc.world.children)
+        t1 = asyncio.ensure_future(nl.reset(statement=lifecycle.stmt_text(7), run_no_start_from=100))
+        for _ in range(d):
+            await asyncio.sleep(0)
+        t2 = asyncio.ensure_future(nl.run())
+        res = await asyncio.gather(t1, t2, return_exceptions=True)
+        await lifecycle.settle()
+        out: dict = {'d': d, 'from_finished': from_finished, 'results': [type(r).__name__ if isinstance(r, BaseException) else 'ok' for r in res],
+                     'state': nl.state, 'displayed': lifecycle.stmt_id(nl.statement), 'executed': None, 'run_no': None}
+        new = sc.world.children[n0:]
+        if new:
+            ra = new[-1].run_arg
+            out['executed'] = lifecycle.stmt_id(ra.statement)
+            out['run_no'] = ra.run_no
+        for c in sc.world.live():
+            c.exit(RunResult(ret=None), exitcode=0)
+        await lifecycle.settle()
+        # afterwards a plain reset() + run(): the numbering goes on from what was displayed, whichever call won
+        out['run_no_displayed'] = nl.run_no
+        await nl.close()
+        return out
+    fakes.install()
+    try:
+        return ctl.run(main, ctl.Fifo())
+    except (Exception, ctl.StepBudgetExceeded) as e:  # noqa
+        return {'d': d, 'from_finished': from_finished, 'error': f'{type(e).__name__}: {e}'}
+
+
 def run(chk: common.Check) -> None:
     chk.cov.rule = ('serial histories (as C01) with reset carrying every subset of {statement, run_no_start_from, trace_threads, trace_modules}, '
                     'initial options varied; observables: run_no/run_info/statement publications and the RunArg handed to the simulated child; '
@@ -79,4 +123,19 @@ def run(chk: common.Check) -> None:
         if m:
             oracle_fail.append(({'init': r['init'], 'ops': r['ops'], 'schedule': r['schedule'], 'implementation': r['impl']}, m, None))
     dis = _life.compare(rows, KINDS)
+    for ff in (False,):
+        for d in (0, 1, 2):
+            r = overlap_reset_run(d, ff)
+            chk.cov.case(('overlap-reset-run', d, ff))
+            chk.cov.count('kinds', 'overlap-reset-run-clean-offsets')
+            m = []
+            if 'error' in r:
+                m.append(f'scenario failed: {r["error"]}')
+            else:
+                if r['executed'] is not None and r['executed'] != r['displayed']:
+                    m.append(f"reset(statement=NEW) and run() {d} scheduler steps apart: the script on display is {r['displayed']}, the script executed is {r['executed']}")
+                if r['executed'] is not None and r['run_no'] != r['run_no_displayed']:
+                    m.append(f"reset(run_no_start_from=100) and run() {d} steps apart: the run executes as number {r['run_no']}, the number on display is {r['run_no_displayed']}")
+            if m:
+                oracle_fail.append(({'overlap': r}, m, None))
     _life.finish(chk, 'C14', oracle_fail, dis, 'run numbers, run records, statement, child arguments')
